@@ -52,18 +52,65 @@ def body_signature(fn: ast.FunctionDef, own_names: Set[str]) -> str:
     function and its renamed copy (whose recursive / sibling calls were renamed along)"""
     import hashlib
 
+    body = [b for b in fn.body if not (isinstance(b, ast.Expr) and isinstance(b.value, ast.Constant) and isinstance(b.value.value, str))]
+    # local variables (parameters, assigned names, handler names) are numbered in order of first appearance: the digest is
+    # also equal for a copy whose locals were renamed along with the function
+    order: Dict[str, str] = {}
+    for a in fn.args.posonlyargs + fn.args.args + fn.args.kwonlyargs + ([fn.args.vararg] if fn.args.vararg else []) + ([fn.args.kwarg] if fn.args.kwarg else []):
+        order.setdefault(a.arg, f"_L{len(order)}")
+    stored = set()
+    for b in body:
+        for n in ast.walk(b):
+            if isinstance(n, ast.Name) and isinstance(n.ctx, (ast.Store, ast.Del)):
+                stored.add(n.id)
+            elif isinstance(n, ast.ExceptHandler) and n.name:
+                stored.add(n.name)
+            elif isinstance(n, ast.arg):
+                stored.add(n.arg)
+
+    class Seq(ast.NodeVisitor):  # source order
+        def visit_Name(self, n):
+            if n.id in stored:
+                order.setdefault(n.id, f"_L{len(order)}")
+
+        def visit_ExceptHandler(self, n):
+            if n.name:
+                order.setdefault(n.name, f"_L{len(order)}")
+            self.generic_visit(n)
+
+        def visit_arg(self, n):
+            order.setdefault(n.arg, f"_L{len(order)}")
+
+    for b in body:
+        Seq().visit(b)
+
     class B(ast.NodeTransformer):
         def visit_Attribute(self, n):
             self.generic_visit(n)
             return ast.Attribute(value=n.value, attr="_F_", ctx=n.ctx) if n.attr in own_names else n
 
         def visit_Name(self, n):
+            if n.id in order:
+                return ast.Name(id=order[n.id], ctx=n.ctx)
             return ast.Name(id="_F_", ctx=n.ctx) if n.id in own_names else n
 
-    body = [b for b in fn.body if not (isinstance(b, ast.Expr) and isinstance(b.value, ast.Constant) and isinstance(b.value.value, str))]
+        def visit_ExceptHandler(self, n):
+            self.generic_visit(n)
+            if n.name:
+                n.name = order.get(n.name, n.name)
+            return n
+
+        def visit_arg(self, n):
+            n.arg = order.get(n.arg, n.arg)
+            return n
+
+        def visit_keyword(self, n):
+            self.generic_visit(n)
+            return n
+
     txt = ast.dump(ast.Module(body=[B().visit(copy.deepcopy(x)) for x in body], type_ignores=[]), annotate_fields=False, include_attributes=False)
-    args = ",".join(a.arg for a in fn.args.posonlyargs + fn.args.args + fn.args.kwonlyargs)
-    return hashlib.sha1((args + "|" + txt).encode()).hexdigest()[:16]
+    nargs = len(fn.args.posonlyargs + fn.args.args + fn.args.kwonlyargs)
+    return hashlib.sha1((str(nargs) + "|" + txt).encode()).hexdigest()[:16]
 
 
 def attr_signature(fn: ast.FunctionDef, own_names: Set[str]) -> Tuple[str, List[str]]:
@@ -344,6 +391,36 @@ class Expander:
             elif isinstance(st, ast.ClassDef):
                 self.classes[st.name] = {m.name: m for m in st.body if isinstance(m, ast.FunctionDef)}
                 self.bases[st.name] = [b.id for b in st.bases if isinstance(b, ast.Name)]
+        # components: `self.table = SubscriptionTable()` in __init__, SubscriptionTable a class of this module that the rules
+        # never saw (none of its methods in the vocabulary): calls `self.table.m(...)` are expanded with self := self.table
+        self.components: Dict[str, Dict[str, str]] = {}
+        new_classes = {cn for cn, ms in self.classes.items() if not any(f"{cn}.{mn}" in known for mn in ms) and f"={cn}" not in known}
+        for cn, ms in self.classes.items():
+            init = ms.get("__init__")
+            if init is None:
+                continue
+            seen_attr: Dict[str, int] = {}
+            for n in ast.walk(init):
+                tv = None
+                if isinstance(n, ast.Assign) and len(n.targets) == 1:
+                    tv = (n.targets[0], n.value)
+                elif isinstance(n, ast.AnnAssign) and n.value is not None:
+                    tv = (n.target, n.value)
+                if tv and isinstance(tv[0], ast.Attribute) and isinstance(tv[0].value, ast.Name) and tv[0].value.id == "self":
+                    seen_attr[tv[0].attr] = seen_attr.get(tv[0].attr, 0) + 1
+                    if isinstance(tv[1], ast.Call) and isinstance(tv[1].func, ast.Name) and tv[1].func.id in new_classes and tv[1].func.id != cn:
+                        self.components.setdefault(cn, {})[tv[0].attr] = tv[1].func.id
+            for a_ in list(self.components.get(cn, {})):
+                if seen_attr.get(a_, 0) != 1:
+                    del self.components[cn][a_]
+        # an attribute re-bound outside __init__ is not a fixed component
+        for cn, comp in self.components.items():
+            for mn, m in self.classes[cn].items():
+                if mn == "__init__":
+                    continue
+                for n in ast.walk(m):
+                    if isinstance(n, ast.Attribute) and isinstance(n.ctx, (ast.Store, ast.Del)) and isinstance(n.value, ast.Name) and n.value.id == "self" and n.attr in comp:
+                        comp.pop(n.attr, None)
 
     # ---- resolution -------------------------------------------------------------------------------------
     def _method(self, cname: str, mname: str, seen=()) -> Optional[Tuple[ast.FunctionDef, str]]:
@@ -369,6 +446,12 @@ class Expander:
                 r = self._method(fn.value.id, fn.attr)
                 if r and self._kind(r[0]) == "static":
                     return r[0], r[1], "static"
+        elif isinstance(fn, ast.Attribute) and isinstance(fn.value, ast.Attribute) and isinstance(fn.value.value, ast.Name) and fn.value.value.id == "self" and cname:
+            comp = self.components.get(cname, {}).get(fn.value.attr)
+            if comp:
+                r = self._method(comp, fn.attr)
+                if r and self._kind(r[0]) == "method":
+                    return r[0], r[1], "method"
         elif isinstance(fn, ast.Name) and fn.id in self.funcs:
             return self.funcs[fn.id], fn.id, "function"
         return None
@@ -405,7 +488,8 @@ class Expander:
         if kind == "method":
             if not params:
                 return None
-            actual[params[0]] = ast.Name(id="self", ctx=ast.Load())
+            recv = call.func.value if isinstance(call.func, ast.Attribute) else ast.Name(id="self", ctx=ast.Load())
+            actual[params[0]] = copy.deepcopy(recv)
             params = params[1:]
         if any(isinstance(x, ast.Starred) for x in call.args) or any(k.arg is None for k in call.keywords):
             return None
@@ -590,6 +674,10 @@ class Expander:
                     s.body = self.block(s.body, cname, stack)
                     s.orelse = self.block(s.orelse, cname, stack)
                     return ex + [s]
+        elif isinstance(s, ast.With) and len(s.items) == 1 and isinstance(s.items[0].context_expr, ast.Call):
+            ex = self._with_cm(s, cname, stack)
+            if ex is not None:
+                return ex
         elif isinstance(s, ast.If):
             t = s.test
             neg = isinstance(t, ast.UnaryOp) and isinstance(t.op, ast.Not)
@@ -606,6 +694,91 @@ class Expander:
                     s.body = self.block(s.body, cname, stack)
                     s.orelse = self.block(s.orelse, cname, stack)
                     return ex + [s]
+        return None
+
+    _MARK = "__with_body__"
+
+    def _with_cm(self, s: ast.With, cname, stack) -> Optional[List[ast.stmt]]:
+        """`with self.on_write_failure(module, header): BODY` where on_write_failure is a @contextmanager generator added
+        after the rules were written, with exactly one `yield` statement: the generator body with BODY in place of the yield
+        (an exception of BODY is thrown in at the yield, a handler there that swallows it ends the with normally - the same
+        control flow as the inlined try/except)."""
+        call = s.items[0].context_expr
+        r = self.resolve_any(call, cname)
+        if r is None:
+            return None
+        d, q, kind = r
+        if q in self.known or q in stack or len(stack) > MAX_DEPTH:
+            return None
+        decs = [ast.unparse(x).split(".")[-1] for x in d.decorator_list]
+        if decs != ["contextmanager"] or d.args.vararg or d.args.kwarg:
+            return None
+        if _contains(d.body, (ast.YieldFrom, ast.Await, ast.Global, ast.Nonlocal, ast.FunctionDef, ast.AsyncFunctionDef, ast.ClassDef, ast.Return, ast.Lambda)):
+            return None
+        ys = [n for b in d.body for n in ast.walk(b) if isinstance(n, ast.Yield)]
+        if len(ys) != 1:
+            return None
+        d2 = copy.deepcopy(d)
+        d2.decorator_list = []
+        found = []
+
+        class Y(ast.NodeTransformer):
+            def visit_Expr(self_, n):
+                if isinstance(n.value, ast.Yield):
+                    found.append(n.value.value)
+                    return ast.copy_location(ast.Expr(value=ast.Name(id=Expander._MARK, ctx=ast.Load())), n)
+                return n
+
+        Y().visit(d2)
+        if len(found) != 1:
+            return None  # the yield is not a statement of its own (`x = yield`)
+        as_t = s.items[0].optional_vars
+        if as_t is not None and (found[0] is None or not isinstance(as_t, ast.Name)):
+            return None
+        if found[0] is not None and as_t is None and not _pure(found[0]):
+            return None
+        if found[0] is not None and as_t is not None:
+            # the yielded value is evaluated in the generator's scope: carry it through the expansion as an assignment there
+            class Y2(ast.NodeTransformer):
+                def visit_Expr(self_, n):
+                    if isinstance(n.value, ast.Name) and n.value.id == Expander._MARK:
+                        return [ast.copy_location(ast.Assign(targets=[ast.Name(id="__with_as__", ctx=ast.Store())], value=found[0]), n), n]
+                    return n
+            Y2().visit(d2)
+        ex = self.expand(call, d2, q, "method" if kind == "cm-method" else "function", "stmt", None, cname, stack)
+        if ex is None:
+            return None
+        inner = self.block(s.body, cname, stack)
+        as_name = as_t.id if as_t is not None else None
+
+        class Put(ast.NodeTransformer):
+            def visit_Expr(self_, n):
+                if isinstance(n.value, ast.Name) and n.value.id == Expander._MARK:
+                    return inner
+                return n
+
+            def visit_Name(self_, n):
+                if as_name is not None and n.id.startswith("__with_as__"):
+                    return ast.copy_location(ast.Name(id=as_name, ctx=n.ctx), n)
+                return n
+
+        out = []
+        for st in ex:
+            r_ = Put().visit(st)
+            out.extend(r_ if isinstance(r_, list) else [r_])
+        for st in out:
+            ast.fix_missing_locations(st)
+        return out
+
+    def resolve_any(self, call: ast.Call, cname):
+        """like resolve, but also for decorated definitions (the caller checks the decorator)"""
+        fn = call.func
+        if isinstance(fn, ast.Attribute) and isinstance(fn.value, ast.Name) and fn.value.id == "self" and cname:
+            r = self._method(cname, fn.attr)
+            if r:
+                return r[0], r[1], "cm-method"
+        elif isinstance(fn, ast.Name) and fn.id in self.funcs:
+            return self.funcs[fn.id], fn.id, "cm-function"
         return None
 
     def _expr_calls(self, s: ast.stmt, cname, stack) -> ast.stmt:
@@ -708,7 +881,79 @@ def expand_module(tree: ast.Module, modname: str) -> Tuple[int, List[str]]:
         te.sites.append(f"{nc} function(s) with new named constants replaced by their literals")
     ex = Expander(tree, modname, known)
     n = ex.run()
-    return n + nt, te.sites + ex.sites
+    cs = collapse_container_subclasses(tree, known, ex) if n else []
+    return n + nt + len(cs), te.sites + ex.sites + cs
+
+
+_CONTAINER_BASES = {"DefaultDict": "defaultdict", "defaultdict": "defaultdict", "Dict": "dict", "dict": "dict", "List": "list", "list": "list",
+                    "Set": "set", "set": "set", "Counter": "Counter", "OrderedDict": "OrderedDict", "Deque": "deque", "deque": "deque"}
+
+
+def collapse_container_subclasses(tree: ast.Module, known: Set[str], ex: "Expander") -> List[str]:
+    """`class SubscriptionTable(DefaultDict[int, Set[Module]])` added after the rules were written, used as a component whose
+    method calls were all expanded above: its construction `SubscriptionTable()` is the construction of the container it
+    extends (`defaultdict(set)` when __init__ only does `super().__init__(set)`)."""
+    used = {k for comp in ex.components.values() for k in comp.values()}
+    out = []
+    repl: Dict[str, ast.expr] = {}
+    anns: Dict[str, ast.expr] = {}
+    for st in tree.body:
+        if not isinstance(st, ast.ClassDef) or st.name not in used or len(st.bases) != 1:
+            continue
+        b = st.bases[0]
+        if isinstance(b, ast.Subscript):
+            b = b.value
+        bname = b.attr if isinstance(b, ast.Attribute) else (b.id if isinstance(b, ast.Name) else None)
+        if bname not in _CONTAINER_BASES:
+            continue
+        init = next((m for m in st.body if isinstance(m, ast.FunctionDef) and m.name == "__init__"), None)
+        args: List[ast.expr] = []
+        if init is not None:
+            body = [x for x in init.body if not (isinstance(x, ast.Expr) and isinstance(x.value, ast.Constant))]
+            if len(init.args.args) != 1 or len(body) != 1 or not isinstance(body[0], ast.Expr) or not isinstance(body[0].value, ast.Call):
+                continue
+            c = body[0].value
+            if ast.unparse(c.func) != "super().__init__" or c.keywords or not all(_pure(a) for a in c.args):
+                continue
+            args = c.args
+        repl[st.name] = ast.Call(func=ast.Name(id=_CONTAINER_BASES[bname], ctx=ast.Load()), args=[copy.deepcopy(a) for a in args], keywords=[])
+        if isinstance(st.bases[0], ast.Subscript):
+            anns[st.name] = st.bases[0]
+    if not repl:
+        return out
+    # only when no method call on such a component is left unexpanded anywhere
+    leftovers = set()
+    for cn, comp in ex.components.items():
+        for n in ast.walk(tree):
+            if isinstance(n, ast.Call) and isinstance(n.func, ast.Attribute) and isinstance(n.func.value, ast.Attribute) and isinstance(n.func.value.value, ast.Name) \
+                    and n.func.value.value.id == "self" and comp.get(n.func.value.attr) in repl:
+                k = comp[n.func.value.attr]
+                if ex._method(k, n.func.attr):
+                    leftovers.add(k)
+    for k in leftovers:
+        repl.pop(k, None)
+
+    class R(ast.NodeTransformer):
+        def visit_Assign(self, n):
+            # the element types the class declared through its base stay known: `self.t: DefaultDict[int, Set[Module]] = defaultdict(set)`
+            v = n.value
+            if len(n.targets) == 1 and isinstance(n.targets[0], ast.Attribute) and isinstance(v, ast.Call) and isinstance(v.func, ast.Name) and v.func.id in repl \
+                    and v.func.id in anns and not v.args and not v.keywords:
+                self.generic_visit(n)
+                return ast.copy_location(ast.AnnAssign(target=n.targets[0], annotation=copy.deepcopy(anns[v.func.id]), value=n.value, simple=0), n)
+            self.generic_visit(n)
+            return n
+
+        def visit_Call(self, n):
+            self.generic_visit(n)
+            if isinstance(n.func, ast.Name) and n.func.id in repl and not n.args and not n.keywords:
+                out.append(f"{n.func.id}() -> {ast.unparse(repl[n.func.id])}")
+                return ast.copy_location(copy.deepcopy(repl[n.func.id]), n)
+            return n
+
+    R().visit(tree)
+    ast.fix_missing_locations(tree)
+    return out
 
 
 # ======================================================================================================================
